@@ -27,7 +27,6 @@ import (
 	"log"
 	"strings"
 
-	"fmt"
 	"gopkg.in/yaml.v2"
 	"net"
 )
@@ -87,7 +86,8 @@ func (rs *RawSocket) inputMsg(topic string, mCh chan []byte, ec *uint64) {
 		}
 
 		for i := 0; ; i++ {
-			_, err = fmt.Fprintf(rs.connection, string(msg)+"\n")
+			// the message is data, not a format string
+			_, err = rs.connection.Write(append(msg[:len(msg):len(msg)], '\n'))
 			if err == nil {
 				break
 			}
